@@ -6153,6 +6153,11 @@ static int convert_from_object_fficallback(char *result,
         }
     }
  skip:
+    if (ctype->ct_flags & (CT_STRUCT | CT_UNION)) {
+        /* fields missing from a list/tuple/dict result must be zero,
+           like with ffi.new() */
+        memset(result, 0, ctype->ct_size);
+    }
     return convert_from_object(result, ctype, pyobj);
 }
 
